@@ -84,7 +84,7 @@ def do_run(seed, tiers):
                 t0 = time.time()
                 c = sh("./check %s --tier %s" % (prop, tier), cwd=VERIF, env=env, timeout=7200)
                 lines = [l for l in c.stdout.splitlines() if l.startswith(("VIOLATION", "ERROR", "OK", "FAIL", "INCONCL")) or l.startswith("  unit=")]
-                viol = [l for l in c.stdout.splitlines() if l.startswith("  |") and ("C%s" % prop[1:] in l or "FAIL:" in l or ".go:" in l)][:6]
+                viol = [l[:1500] for l in c.stdout.splitlines() if l.startswith("  |") and "[rapid] draw" not in l and ("C%s" % prop[1:] in l or "FAIL:" in l or "DATA RACE" in l or "panic" in l)][:4]
                 outcomes.append({"tier": tier, "exit": c.returncode, "wall_s": round(time.time() - t0, 1), "lines": lines[-6:], "first_failure_lines": viol})
                 print(tier, c.returncode, lines[-4:])
                 if c.returncode == 1:
